@@ -26,6 +26,7 @@ type C08Case struct {
 	Faulty  []RStep   `json:"faulty,omitempty"`
 	Persist int       `json:"persist,omitempty"` // reader fails persistently from this call on (for a while)
 	Enum    bool      `json:"enum"`
+	Edge    bool      `json:"edge,omitempty"` // sizes around the capacity steps of the buffer
 }
 
 // wrapReader is the recording fault-plan reader of C08.
@@ -111,6 +112,15 @@ type c08prop struct{ base }
 // CaseCPU: a case enumerates up to several hundred complete stream runs.
 func (p *c08prop) CaseCPU(tier string) int { return 120 }
 
+// KindCPU: the edge cases of the suffix array parsers sort 64 KiB buffers
+// dozens of times (15 s measured on the unchanged tree).
+func (p *c08prop) KindCPU(kind, tier string) int {
+	if kind == "edge:OSAP" || kind == "edge:GSAP" || kind == "big:OSAP" || kind == "big:GSAP" {
+		return 400
+	}
+	return 120
+}
+
 func (p *c08prop) Plan(tier string, seed int64) []core.Segment {
 	m := tierScale(tier, 30)
 	var segs []core.Segment
@@ -121,6 +131,11 @@ func (p *c08prop) Plan(tier string, seed int64) []core.Segment {
 			big = 1
 		}
 		segs = append(segs, core.Segment{Kind: "big:" + t, N: big * m, Chunk: 1})
+		edge := int64(60)
+		if t == "GSAP" || t == "OSAP" {
+			edge = 6
+		}
+		segs = append(segs, core.Segment{Kind: "edge:" + t, N: edge * tierScale(tier, 6), Chunk: 3})
 	}
 	return segs
 }
@@ -189,6 +204,45 @@ func (p *c08prop) Gen(kind string, idx int64, seed int64, tier string) core.Case
 		}
 		steps := []RStep{{N: 70000}, {N: 5, Err: 2}, {N: 100000}, {N: 0, Err: 2}, {N: 65536}}
 		cc.Faulty = steps
+		return core.MkCase(p.id, kind, idx, seed, tier, cc)
+	}
+	if class == "edge" {
+		// buffer sizes and stream lengths around the capacity steps of the
+		// buffer (ReadFrom reads in pieces of 32 KiB and allocates 2t+7
+		// bytes): the margin behind the data must survive every step
+		c := gen.SmallCfg(r, typ, gen.Opts{})
+		c.BufferSize = []int{65537, 65538, 65539, 65540, 65541, 65542, 65543, 65544, 65600, 100000, 0, 196615, 131072 + 7}[r.Intn(13)]
+		if r.Intn(4) == 0 {
+			c.BufferSize = 65536 + r.Intn(12)
+		}
+		c.ShrinkSize, c.BlockSize = 0, []int{0, 4096, 65536, 1 << 17}[r.Intn(4)]
+		c.WindowSize = []int{0, 1 << 16, 4096}[r.Intn(3)]
+		if typ == "GSAP" || typ == "OSAP" {
+			c.WindowSize = 1 << 16
+			if c.BufferSize == 0 || c.BufferSize > 1<<17 {
+				c.BufferSize = 1<<16 + 3 + r.Intn(5)
+			}
+		}
+		base := []int{65536, 65536, 65543, 196608, 32768}[r.Intn(5)]
+		if c.BufferSize > 0 && r.Intn(3) == 0 {
+			base = c.BufferSize
+		}
+		n := base + r.Intn(17) - 8
+		if (typ == "GSAP" || typ == "OSAP") && n > 70000 {
+			n = 65536 + r.Intn(17) - 8
+		}
+		_, stream := gen.Bytes(r, n, c.Hint())
+		cc := C08Case{Cfg: c, Stream: stream, Edge: true}
+		// all at once, data together with io.EOF; all at once, io.EOF in a
+		// call of its own; 32 KiB pieces; 1000 byte pieces with io.EOF
+		cc.Chunks = append(cc.Chunks, []RStep{{N: n, Err: 1}}, []RStep{{N: n}}, nil, nil)
+		for s := 0; s < n; s += 32768 {
+			cc.Chunks[2] = append(cc.Chunks[2], RStep{N: 32768})
+		}
+		for s := 0; s < n; s += 1000 {
+			cc.Chunks[3] = append(cc.Chunks[3], RStep{N: 1000, Err: 1})
+		}
+		cc.Faulty = []RStep{{N: 65536 + r.Intn(8), Err: 2}, {N: r.Intn(8), Err: 2}, {N: n}}
 		return core.MkCase(p.id, kind, idx, seed, tier, cc)
 	}
 	c := gen.SmallCfg(r, typ, gen.Opts{MaxBuf: 200})
@@ -287,13 +341,22 @@ func runWrapReader(cc *C08Case, r io.Reader, rd *wrapReader, st *core.Stats) (re
 	if err != nil {
 		return nil, "", ""
 	}
-	res = &wrapResult{}
 	wp := lz.Wrap(r, ps.P)
+	return driveWrap(wp, cc, r, rd, st, -1)
+}
+
+// driveWrap calls Parse on the WrappedParser until io.EOF, or until stopAfter
+// blocks were delivered (stopAfter >= 0: the caller abandons the stream).
+func driveWrap(wp *lz.WrappedParser, cc *C08Case, r io.Reader, rd *wrapReader, st *core.Stats, stopAfter int) (res *wrapResult, class, msg string) {
+	res = &wrapResult{}
 	plain := r != io.Reader(rd)
-	maxCalls := len(cc.Stream) + 600 + 16
-	maxReads := 64 + 8*len(cc.Stream) + 700
+	maxCalls := len(rd.data) + 600 + 16
+	maxReads := 64 + 8*len(rd.data) + 700
 	errorsSeen := 0
 	for {
+		if stopAfter >= 0 && len(res.blocks) >= stopAfter {
+			return res, "", ""
+		}
 		var blk lz.Block
 		blk.Sequences = append(blk.Sequences, sentinelSeq)
 		var n int
@@ -303,7 +366,7 @@ func runWrapReader(cc *C08Case, r io.Reader, rd *wrapReader, st *core.Stats) (re
 		}
 		res.calls++
 		if res.calls > maxCalls || rd.calls > maxReads {
-			return res, "no-progress", fmt.Sprintf("stream of %d bytes not finished after %d Parse calls and %d reader calls (%d faults)", len(cc.Stream), res.calls, rd.calls, rd.faults)
+			return res, "no-progress", fmt.Sprintf("stream of %d bytes not finished after %d Parse calls and %d reader calls (%d faults)", len(rd.data), res.calls, rd.calls, rd.faults)
 		}
 		handed := rd.data[:rd.pos]
 		if plain {
@@ -432,7 +495,10 @@ func (p *c08prop) Run(c *core.Case, st *core.Stats) []core.Violation {
 		st.Inc("chunkings_compared")
 	}
 	// 2b. readers of other dynamic types from the standard library
-	if c.Idx%4 == 0 || len(cc.Stream) > 100000 {
+	if cc.Edge {
+		st.Inc("streams_around_capacity_steps")
+	}
+	if c.Idx%4 == 0 || len(cc.Stream) > 100000 || cc.Edge && c.Idx%2 == 0 {
 		for name, r := range stdReaders(cc.Stream) {
 			res, class, msg := runWrapReader(cc, r, &wrapReader{data: cc.Stream, pFrom: -1, pTo: -1}, st)
 			if class != "" {
@@ -445,6 +511,46 @@ func (p *c08prop) Run(c *core.Case, st *core.Stats) []core.Violation {
 				return viol("chunking-dependent-blocks", "reader "+name, "block sequence differs from the one under full reads: "+why)
 			}
 			st.Inc("standard_library_readers_compared")
+		}
+	}
+	// 2c. a WrappedParser is reused for a second stream through Reset(reader):
+	// the first stream is abandoned after some blocks (before or after its
+	// end was reported), the second one must be delivered completely
+	if len(cc.Chunks) >= 4 {
+		second := make([]byte, len(cc.Stream))
+		for i, b := range cc.Stream {
+			second[len(second)-1-i] = b
+		}
+		if c.Idx%2 == 0 {
+			second = append(second[:len(second)/2:len(second)/2], cc.Stream...)
+		}
+		nb := len(refRes.blocks)
+		for vi, stop := range []int{nb, -1, nb / 2, 1} {
+			if stop > nb || (len(cc.Stream) > 100000 && vi >= 2) {
+				continue
+			}
+			ps, _ := NewParserFor(cc.Cfg)
+			var steps []RStep
+			if vi != 2 {
+				steps = cc.Chunks[3] // data together with io.EOF
+			}
+			rdA := &wrapReader{data: cc.Stream, steps: steps, pFrom: -1, pTo: -1}
+			wp := lz.Wrap(rdA, ps.P)
+			if _, class, msg := driveWrap(wp, cc, rdA, rdA, st, stop); class != "" {
+				return viol(class, fmt.Sprintf("first stream of a reused WrappedParser (stop after %d blocks)", stop), msg)
+			}
+			rdB := &wrapReader{data: second, steps: cc.Chunks[(vi+1)%len(cc.Chunks)], pFrom: -1, pTo: -1}
+			if pv := call(func() { wp.Reset(rdB) }); pv != nil {
+				return viol("panic", "WrappedParser.Reset", fmtPanic(pv))
+			}
+			resB, class, msg := driveWrap(wp, cc, rdB, rdB, st, -1)
+			if class != "" {
+				return viol(class, fmt.Sprintf("second stream (%d bytes) after WrappedParser.Reset; the first stream was left after %d of %d blocks", len(second), stop, nb), msg)
+			}
+			if !bytes.Equal(resB.dec, second) {
+				return viol("eof-before-all-delivered", "second stream after WrappedParser.Reset", fmt.Sprintf("io.EOF after %d of %d bytes", len(resB.dec), len(second)))
+			}
+			st.Inc("streams_after_wrapped_reset")
 		}
 	}
 	// 3. seeded random fault plan
@@ -510,5 +616,5 @@ func init() {
 	core.Register(&c08prop{base{id: "C08", level: "fault_enumeration",
 		rule:        "for every generated (configuration of one of the 7 parsers with ShrinkSize < BufferSize <= 200, input of length 0..5*BufferSize incl. exact multiples of BlockSize/BufferSize) the wrapped parser is run (1) with full reads (reference block sequence, EOF repeated 3 times), (2) under 4 chunkings (single bytes, random short reads, short reads mixed with (0,nil) reads, data returned together with io.EOF) and, for a quarter of the cases, under ten readers of other dynamic types from the standard library (bytes/strings readers, bufio, MultiReader of LimitReader and plain struct readers, iotest One-byte/Half/DataErr readers, TeeReader) whose block sequences must equal the reference; 'big' cases repeat this with buffers beyond 64 KiB and the default configuration on inputs of 300-700 kB, (3) under a seeded random multi-fault plan (errors with and without data, optionally a reader that fails persistently for 40 calls), and (4) for inputs <= 400 bytes ALL single fault placements over the first 50 reader calls x {error without data, error with data} and for <= 14 reader calls all double placements x 4 combinations; a recording reader decides what was handed out; non-trivial iff the stream produced at least one block; distinct = distinct concrete case",
 		assumptions: []string{"a one-shot reader error that arrives together with data may be swallowed by Wrap (the property only constrains when an error may be returned)", "io.EOF is signalled by the reader only when its data is exhausted"},
-		mandatory:   []string{"streams_completed", "chunkings_compared", "standard_library_readers_compared", "single_fault_placements", "double_fault_placements", "reader_errors_surfaced", "streams_longer_than_buffer", "streams_multiple_of_buffersize", "persistent_failure_plans", "streams_with_several_blocks"}}})
+		mandatory:   []string{"streams_completed", "chunkings_compared", "standard_library_readers_compared", "single_fault_placements", "double_fault_placements", "reader_errors_surfaced", "streams_longer_than_buffer", "streams_multiple_of_buffersize", "persistent_failure_plans", "streams_with_several_blocks", "streams_after_wrapped_reset", "streams_around_capacity_steps"}}})
 }
